@@ -188,16 +188,34 @@ func c10CheckDump(b kvBackend, m *ref.KV, typ uint8, sess, prefix string, obs kv
 	if obs.Panic != "" {
 		return &kvViol{"panic-dump@" + b.Name, fmt.Sprintf("%s: Dump panicked: %s", where, obs.Panic)}
 	}
-	if !b.HasDump || !ref.Sessioned(typ) {
+	if !b.HasDump {
 		return nil
 	}
+	rsig := ""
+	if !ref.Sessioned(typ) {
+		// a resource type (stored without session, possibly with translations): what a listing shows of a key that has
+		// translations is not defined anywhere - constrained only while no translation of this type is stored and no
+		// language is selected; the session set on the handle is not part of such an entry's identity
+		if m.Lang != "" {
+			return nil
+		}
+		for _, c := range m.AllCells() {
+			if c.Typ == typ && c.Lang != "" {
+				return nil
+			}
+		}
+		if sess != "" {
+			rsig = "-of-resource-type-under-session"
+		}
+		sess = ""
+	}
 	exp := m.List(typ, sess, prefix)
-	desc := fmt.Sprintf("Dump(%q) under %s session=%q", prefix, ref.TypName(typ), sess)
+	desc := fmt.Sprintf("Dump(%q) under %s session=%q", prefix, ref.TypName(typ), m.Sess)
 	if obs.Err != nil {
 		if len(exp) == 0 {
 			return nil
 		}
-		return &kvViol{"dump-fails-with-stored-entries@" + b.Name, fmt.Sprintf("%s: %s fails (%v) although %d entries are stored: %v", where, desc, obs.Err, len(exp), sortedKeys(exp))}
+		return &kvViol{"dump-fails-with-stored-entries" + rsig + "@" + b.Name, fmt.Sprintf("%s: %s fails (%v) although %d entries are stored: %v", where, desc, obs.Err, len(exp), sortedKeys(exp))}
 	}
 	seen := map[string]int{}
 	for _, p := range obs.List {
@@ -723,6 +741,8 @@ func c10Run(c *mc.Ctx) {
 			{{Op: "prefix", Typ: ref.TTemplate}, {Op: "lock", Typ: ref.TTemplate, On: false}, {Op: "put", Key: ref.Bs(k251), Val: "text"}, {Op: "lang", Lang: "nor"}, {Op: "get", Key: ref.Bs(k251)}},
 			{{Op: "prefix", Typ: ref.TTemplate}, {Op: "lang", Lang: "nor"}, {Op: "get", Key: ref.Bs(k251)}},
 			{{Op: "prefix", Typ: ref.TBin}, {Op: "get", Key: ref.Bs(k252)}},
+			// listing of a resource type (stored without a session) on a handle that has a session set
+			{{Op: "prefix", Typ: ref.TTemplate}, {Op: "lock", Typ: ref.TTemplate, On: false}, {Op: "put", Key: "greeting", Val: "hello"}, {Op: "session", Sess: "ss"}, {Op: "get", Key: "greeting"}, {Op: "dump", Key: "gre"}},
 			{{Op: "prefix", Typ: ref.TUserData}, {Op: "session", Sess: "ss"}, {Op: "put", Key: ref.Bs(k251[:240]), Val: "text"}, {Op: "get", Key: ref.Bs(k251[:240])}},
 		} {
 			for _, b := range backends {
